@@ -28,6 +28,7 @@ type g2cfg struct {
 	status bool     // first result is an HTTP status
 	track  []string // assignment targets recorded as actions "<target>=<rhs>"
 	local  []string // package-local callees kept as named actions (everything else local is rendered in place)
+	lfull  []string // package-local callees kept as actions with their arguments rendered
 	pure   []string // package-local callees that are neither rendered in place nor recorded (pure functions of their arguments)
 }
 
@@ -49,7 +50,14 @@ var guards2Funcs = []g2cfg{
 	{fn: "writeFrameHeader", acts: []string{"w.WriteByte", "w.Write", "binary.BigEndian.PutUint64", "binary.BigEndian.PutUint16", "binary.LittleEndian.PutUint32"},
 		full: []string{"w.Write", "binary.BigEndian.PutUint64", "binary.BigEndian.PutUint16", "binary.LittleEndian.PutUint32"}, track: []string{"lengthByte"}},
 	{fn: "limitReader.Read", track: []string{"n", "p"}, local: []string{"writeError"}},
-	{fn: "msgReader.Read", acts: []string{"io.Copy"}, local: []string{"readMu.lock", "readUnlock", "limitReader.Read", "flateContextTakeover", "dict.write", "putFlateReader"}},
+	{fn: "msgReader.setFrame", track: []string{"fin", "payloadLength", "maskKey", "limitReader.n", "flate", "ctx"}},
+	{fn: "headerTokens", acts: []string{"append"}},
+	{fn: "msgWriter.Close", local: []string{"writeMu.lock", "writeMu.unlock", "flateWriter.Flush", "writeFrame", "putFlateWriter", "mu.unlock", "flateContextTakeover"}, lfull: []string{"writeFrame"}, track: []string{"closed"}},
+	{fn: "Conn.Close", local: []string{"casClosing", "waitGoroutines", "closeHandshake", "close"}},
+	{fn: "Conn.CloseNow", local: []string{"casClosing", "waitGoroutines", "close"}},
+	{fn: "Conn.closeHandshake", local: []string{"writeClose", "waitCloseHandshake"}, pure: []string{"CloseStatus"}},
+	{fn: "Conn.writeClose", local: []string{"writeControl"}, lfull: []string{"writeControl"}, acts: []string{"CloseError{Code:code,Reason:reason,}.bytes"}},
+	{fn: "msgReader.Read", track: []string{"fin", "payloadLength", "flate"}, acts: []string{"io.Copy"}, local: []string{"readMu.lock", "readUnlock", "limitReader.Read", "flateContextTakeover", "dict.write", "putFlateReader"}},
 	{fn: "msgReader.reset", local: []string{"resetFlate", "limitReader.reset", "setFrame", "flateContextTakeover", "dict.init", "flate"}, track: []string{"ctx", "flate", "flateTail"}},
 	{fn: "msgWriter.reset", local: []string{"mu.lock"}, track: []string{"ctx", "opcode", "flate", "closed"}},
 	{fn: "Conn.write", acts: []string{"writer(ctx,typ)#0.Write", "writer(ctx,typ)#0.Close"}, local: []string{"msgWriter.reset", "msgWriter.mu.unlock", "msgWriter.Write", "msgWriter.Close", "writeFrame", "flate", "writer", "reset", "mu.unlock", "Write", "Close"}},
